@@ -413,6 +413,29 @@ def _check_files(repo, r4, ci):
                  ("op", "FloorDiv", ("cat", (AL, PER, ("const", -1))), PER), ("un", "USub", ("op", "FloorDiv", ("un", "USub", AL), PER))):
             okn = True
     r4.require(okn, init, "file count", "the number of chunk files is no longer ceil(len / per_file)")
+    # reopening accepts whatever creation accepted: opening refuses a meta file for its form (missing, not unpicklable, not three integers),
+    # never for the values - creation validates no values, so any value test at open rejects arrays that were created and used
+    meta_attrs = {"__item_size", "__array_len", "__item_num_in_one_file"}
+    from ..model import ancestors as _anc
+    value_tests = []
+    for rs in [x for x in ast.walk(init.node) if isinstance(x, ast.Raise)]:
+        child = rs
+        for a in _anc(rs):
+            if isinstance(a, ast.If) and any(child is b or any(child is y for y in ast.walk(b)) for b in a.body + a.orelse):
+                for cmp_ in [c for c in ast.walk(a.test) if isinstance(c, ast.Compare)]:
+                    for o in [cmp_.left] + list(cmp_.comparators):
+                        if isinstance(o, ast.Attribute) and o.attr in meta_attrs and any(isinstance(op, (ast.Lt, ast.LtE, ast.Gt, ast.GtE, ast.Eq, ast.NotEq)) for op in cmp_.ops):
+                            value_tests.append((rs, cmp_))
+            child = a
+    create_validates = any(isinstance(c, ast.Compare) and any(isinstance(o, ast.Subscript) and unparse(o.value) == "kwargs" for o in [c.left] + list(c.comparators))
+                           for c in ast.walk(init.node))
+    if value_tests and not create_validates:
+        rs, cmp_ = value_tests[0]
+        r4.fail_fn(init, rs, "open refuses values that create accepted",
+                   "__init__ refuses a stored layout because of `%s`, but creation accepts any (item_size, array_len, items_per_file): an array created with such values "
+                   "(e.g. a chunk size larger than the length) works until it is closed and can never be opened again" % unparse(cmp_))
+    else:
+        r4.ok({"function": init.qual, "rule": "open validates the form of the metadata only"})
     rel = ci.methods.get("release")
     rl = opens
     meta_rm = [x for (fn, call, kind), v in rl.items() if fn == "release" and call in ("os.unlink", "os.remove") and kind == "meta" for x in v]
